@@ -649,7 +649,7 @@ func TestC02(t *testing.T) {
 	vf.Check(t, vf.Prop[sessCase]{
 		ID: "C02", Name: "broker-publish-resolvable", Bubble: true,
 		Rule: "connected session with a cooperative scripted client (accepts REGISTERs, completes QoS 1/2), predefined maps with shadowing between the client's entry and '*', and broker PUBLISH steps on short names, predefined names (own, '*'-only, shadowed), registered names, names introduced by SUBACK and brand-new names, names of two characters but three octets (sometimes while the client refuses or ignores the gateway's REGISTER; sometimes two at the same instant, sometimes at the same instant as the client's own REGISTER or SUBSCRIBE of that name, in either order), QoS 0-2, retain, payload 0..8183 (the largest that fits a datagram). Non-trivial = the topic needed a REGISTER, or is predefined with an ID defined for both the client and '*'; distinct by script.",
-		Assumptions: []string{"only deliveries to an active client are judged (sleep is C11)", "the client resolves IDs only from its own knowledge: short decoding, the shared predefined configuration, REGISTERs it accepted, REGACKs/SUBACKs it received",
+		Assumptions: []string{"only deliveries to an active client are judged (sleep is C11)", "deliveries are attributed to broker publishes by payload, QoS, retain flag and - for QoS 1/2 - the broker's packet identifier, which bisquitt, a transparent gateway, keeps (C06 rests on that); look-alikes on different topics by the name the delivery resolves to", "the client resolves IDs only from its own knowledge: short decoding, the shared predefined configuration, REGISTERs it accepted, REGACKs/SUBACKs it received",
 			"half of the scripted clients accept every REGISTER; the other half behave like bisquitt's own client (client/net.go): a REGISTER for a name already held under another topic ID is refused with 'invalid topic ID'"},
 		Gen: func(t *rapid.T) sessCase {
 			return genSession(t, sessOpts{brokerPublishes: true, refusedRegisters: true, maxSteps: 10})
@@ -734,6 +734,9 @@ func TestC02(t *testing.T) {
 				gi := -1
 				for j := range got {
 					if !used[j] && bytes.Equal(got[j].p.Data, w.m.Payload) && got[j].p.QoS == w.m.QoS && got[j].p.Retain == w.m.Retain {
+						if w.m.QoS > 0 && got[j].p.MsgID != w.m.MsgID {
+							continue // a QoS 1/2 message keeps the broker's message ID: this is another one
+						}
 						if len(alike[sig(w.m)]) > 1 && got[j].res != tn && alike[sig(w.m)][got[j].res] {
 							continue // this is the look-alike's delivery
 						}
